@@ -1,4 +1,5 @@
 import JxlModel.Proofs.Modular
+import JxlModel.Proofs.Flatten
 /-!
 # C03 — lossless Modular images decode to exactly the encoded samples
 
@@ -14,9 +15,10 @@ Layers (DESIGN.md §4 C03):
   is the bridge to the wrapping arithmetic the code runs (identity on in-range values);
 * zig-zag sign packing (`C03_unpack_pack`).
 
-Not proved here (tied by the differential run only, see evidence): that the flattened tree
-(`flatten`/`getLeaf`, incl. lookup-table compilation) selects the same leaf as the tree itself
-(`Tree.evalFor`); that the incremental predictor state equals the neighbours read from the grid;
+* flattened tree = tree for trees without lookup tables (`C03_flatten_eq_eval_partial`).
+
+Not proved here (tied by the differential run only, see evidence): lookup-table compilation;
+that the incremental predictor state equals the neighbours read from the grid;
 palette; the group partition. The statements are kept below as comments where not yet proved.
 -/
 namespace Jxl.Modular
@@ -27,6 +29,20 @@ theorem C03_token_roundtrip (sb : SBits) (leafOf : LeafOf) (prev : List Chan)
     (h : encodeSamples sb leafOf prev vs ps = some out) :
     ∃ ps', decodeSamples sb leafOf prev vs.length ps (out.map (·.2) ++ rest) = some (vs, rest, ps') :=
   decode_encode_samples sb leafOf prev vs ps out rest h
+
+/-- Flattened tree = tree (Impl refines Spec): walking the flattened array (`flatten`, fused
+two-level decisions, static pruning on channel / stream / absent previous channels, breadth-first
+index assignment) reaches exactly the leaf the tree itself selects — for every tree none of whose
+subtrees compiles to a lookup table, every channel, stream index, number of previous channels and
+property vector.
+Full statement (not yet proved): the same without the `noTabB` hypothesis, i.e. including
+`try_compile_to_table` (range bookkeeping, 1022 span rule, index fill), for property values in the
+`i32` range. The table path is tied to the code by the differential run (kinds simple-table,
+gradient-table, mixed-table, redundant, wide-span, prevchan-table). -/
+theorem C03_flatten_eq_eval_partial (c s pc : Nat) (t : Tree) (props : Nat → Int)
+    (hnt : noTabB c s pc t = true) :
+    getLeaf (flatten c s pc t) props = some (t.evalFor c s pc props) :=
+  flatten_getLeaf_eq_evalFor c s pc t props (noTabB_sound c s pc t hnt)
 
 /-- A token the encoder chose reproduces the sample at that leaf, whatever the prediction. -/
 theorem C03_residual_sound (sb : SBits) (leaf : Leaf) (pred v : Int) (tok : Nat)
@@ -61,6 +77,8 @@ def exTree : Tree :=
               (.leaf { ctx := 2, pred := 13, offset := 0, mul := 1 }))
 
 def exChan : Chan := { w := 4, h := 3, data := #[5, 9, 200, 7, 0, 255, 13, 13, 90, 91, 92, 1] }
+
+example : noTabB 0 0 0 exTree = true := by decide +kernel
 
 example : (encodeChannel 32 exTree {} 0 0 exChan []).isSome = true := by decide +kernel
 
